@@ -136,13 +136,62 @@ class KaniSession:
                         et = res["error"].get("error_type") or res["error"].get("exit_status") or "unknown"
                         res["status"] = "error:" + str(et)
             os.remove(out_json)
+        if any(r["status"] == "missing" for r in results.values()):
+            # Kani wrote no (or a partial) JSON report -- it exits without one when a CBMC process aborts.
+            # Fall back to the terse log: blocks are tagged with the worker thread that ran the harness.
+            self._parse_terse_log(text, results)
         for h, res in results.items():
             if res["status"] == "missing":
-                # find per-harness hints in the log (timeouts are reported there)
-                short = h.split("::")[-1]
-                if re.search(r"timed out|TIMEOUT", text) and short in text:
-                    res["status"] = "timeout"
+                res["status"] = "error:no_verdict_in_kani_output"
         return {"results": results, "wall_s": wall, "rc": rc, "log": log, "build_error": build_error}
+
+    @staticmethod
+    def _parse_terse_log(text, results):
+        cur = {}  # thread id -> harness
+        blocks = re.split(r"^(?=Thread \d+: )", text, flags=re.M)
+        if len(blocks) <= 1:  # sequential run: no thread tags
+            blocks = re.split(r"^(?=Checking harness )", text, flags=re.M)
+        for b in blocks:
+            m = re.match(r"(?:Thread (\d+): )?Checking harness (\S+?)\.\.\.", b)
+            tid = None
+            mt = re.match(r"Thread (\d+): ", b)
+            if mt:
+                tid = mt.group(1)
+            if m:
+                cur[tid] = m.group(2)
+                if "VERIFICATION:-" not in b:
+                    continue
+            h = cur.get(tid)
+            if h is None or h not in results or results[h]["status"] != "missing" or "VERIFICATION:-" not in b:
+                continue
+            res = results[h]
+            if "VERIFICATION:- SUCCESSFUL" in b:
+                res["status"] = "pass"
+                mc = re.search(r"\*\* (\d+) of (\d+) cover properties satisfied", b)
+                # without the JSON report individual cover names are unknown: accept only if ALL covers are satisfied
+                if mc and mc.group(1) != mc.group(2):
+                    un = re.search(r"\((\d+) unreachable\)", b[mc.start():mc.start() + 120])
+                    res["covers"] = {"req: (terse log) %s of %s cover properties satisfied" % (mc.group(1), mc.group(2)): "Unsatisfiable"}
+                else:
+                    res["covers"] = {"req: (terse log) all cover properties satisfied": "Satisfied"}
+            else:
+                fails = re.findall(r'Failed Checks: (.*)\n File: "([^"]*)", line (\d+)', b)
+                fails = [f for f in fails if not f[0].startswith("NaN on")]
+                if "timed out" in b:
+                    res["status"] = "timeout"
+                elif "out of memory" in b or "CBMC failed" in b:
+                    res["status"] = "error:cbmc_failed(%s)" % ("out of memory" if "memory" in b else "aborted")
+                elif fails:
+                    res["status"] = "fail"
+                    res["failed"] = [{"description": f[0].strip().strip('"'), "category": "assertion", "function": "", "status": "Failure",
+                                      "location": "%s:%s" % (f[1], f[2])} for f in fails]
+                elif re.search(r"\*\* 0 of \d+ failed", b):
+                    res["status"] = "error:solver_gave_up(undecided checks)"
+                else:
+                    res["status"] = "error:unknown_failure"
+            md = re.search(r"Verification Time: ([0-9.]+)s", b)
+            if md:
+                res["duration_s"] = float(md.group(1))
 
     # ---------------------------------------------------------------- replay
     def playback_tests(self, harness, timeout_s=900):
